@@ -39,6 +39,22 @@ def make_cases(chk, rng):
         c = gen_sol.gen_history(rng, f"r{i}", be=be, nupd=0, dims=(n, None, None), settings=st)
         c["meta"]["kind"] = "rand"
         cases.append(c)
+    # "current data": the certificate must be for the data after updates (reuse on/off, scale_cost, both preconditioners)
+    for i in range(800 if thorough else 100):
+        be = rng.randrange(5)
+        n = rng.choice([1, 2, 3])
+        st = gen_sol.rand_settings(rng, max_iter=1)
+        st["eps_abs"] = rng.choice([F(1, 4), F(8), F(2 ** 10)])
+        st["eps_duality_gap_abs"] = rng.choice([F(1, 4), F(8), F(2 ** 12)])
+        st["preconditioner_scale_cost"] = rng.choice([0, 1, 1])
+        h = gen_sol.Hist(rng, f"u{i}", be, rng.choice([0, 0, 1]), st, dims=(n, None, None))
+        h.setup(dump=False)
+        if rng.random() < 0.7:
+            h.solve()
+        for _ in range(rng.choice([1, 2])):
+            h.update(rng.randrange(256), rng.random() < 0.6, dump=False)
+            h.solve()
+        cases.append(h.case(kind="updated"))
     return cases
 
 
